@@ -9,7 +9,7 @@ TECH = "bounded symbolic execution of /repo's go/ssa (gosym) + SMT (z3 5.1 incre
 CLAIMED = {
  "C01": ("§4 C01", "GenBank.String (the whole writer incl. INSDC table, qualifier kinds, wrap, ORIGIN/CONTIG) is executed on bounded template records with symbolic residues, header letters, valid symbolic calendar date and symbolic feature coordinates/partial flags/strand; the written text is scanned by the real reader: accepted, residues/feature table/header fields equal, and writing the re-read record reproduces the text byte for byte. The same is done for records reached by one edit operation (insert, embed, delete, erase, slice, rotate, reverse, complement, concat with symbolic arguments; CONTIG-only records through reverse/complement) and for streams of 2-3 records (framed independently).",
          "template shapes bounded as stated in the evidence (feature keys over the INSDC key alphabet <= 3 characters, qualifier values over letters, one DBLINK entry, short organism names); time.Format modelled field by field for valid dates; corpus records and pipelines of more than one operation are outside"),
- "C02": ("§4 C02", "Shift/Expand (n>=0) of every location shape in the bound is proved, for all coordinates/i/n/L <= 2^40 at once, to denote exactly the host residues under the insert map (Embed: plus the guest inside strictly spanning parts), in the same order and strand, with markers on the same ends; gts.Insert/Embed are additionally executed on symbolic-byte sequences.",
+ "C02": ("§4 C02", "Shift/Expand (n>=0) of every location shape in the bound is proved, for all coordinates/i/n/L <= 2^40 at once, to denote exactly the host residues under the insert map (Embed: plus the guest inside strictly spanning parts), in the same order and strand, with markers on the same ends; gts.Insert/Embed are additionally executed on symbolic-byte sequences (host residues with or without spare capacity; a second insertion into the same host is placed exactly again and leaves the first result unchanged).",
          "shapes bounded (<=3 parts, depth 2; API level: short sequences); coordinates capped at 2^40; SMT Int encoding with discharged no-overflow obligations"),
  "C03": ("§4 C03", "Expand(i,-n) (the location half of Delete/Erase/Slice) is proved to keep exactly the surviving residues in order and strand, collapse emptied locations to a site at the cut, stay in range and set the partial markers of cut ends, for all coordinates; gts.Delete/Erase/Slice are executed on symbolic sequences (every (i,n), every window incl. wrap-around, empty and negative indices, sources on either strand); GenBank REFERENCE base ranges are checked against a reference model for forward windows (exact text) and wrap-around windows (coverage).",
          "same bounds as C02; records of 4-9 residues at API level; the Join(Ranged,Point) reduction pinned by TestLocationReduction is a listed known finding"),
@@ -19,29 +19,29 @@ CLAIMED = {
          "Between.Reverse (pinned by TestLocationReverse) and Join(Ranged,Point) are listed known findings"),
  "C06": ("§4 C06", "Join/Order of 2..5 parts are proved to keep the covered set per strand and the first-occurrence reading order and never to invent markers; location text is printed and re-parsed symbolically within the stated digit/length bounds.",
          "Join(Ranged,Point) pinned by TestLocationReduction is a listed known finding"),
- "C07": ("§4 C07", "every entry point is executed on fully symbolic short inputs (each byte ranges over all 256 values, partitioned by the comparisons the real parser makes) and on single structure-aware edits (truncate/flip/delete/insert/line delete/duplicate at every offset, symbolic byte) of a writer-produced GenBank record: no Go panic, the scan loop terminates, truncation is reported, and an accepted record has residues == declared length == residues present in ORIGIN.",
+ "C07": ("§4 C07", "every entry point is executed on fully symbolic short inputs (each byte ranges over all 256 values, partitioned by the comparisons the real parser makes) and on single structure-aware edits (truncate/flip/delete/insert/line delete/duplicate at every offset, symbolic byte) of a writer-produced GenBank record: no Go panic, the scan loop terminates, three- and four-part location strings with symbolic digits (points, sites, ranges, partial ranges under join/order/complement) are parsed and reduced to the end (per-path step bound; a counterexample is a native hang), truncation is reported, and an accepted record has residues == declared length == residues present in ORIGIN.",
          "input lengths and the base record are bounded as stated; non-ASCII bytes reaching UTF-8 decoding are cut (listed under paths_cut_outside_claim); regexp.Compile on symbolic patterns is nondeterministic; io.Readers deliver whole buffers"),
  "C08": ("§4 C08", "Regions.Resize/Segment.Resize are proved, for 1..5 segments on either strand and all five modifier forms with unbounded offsets, to yield exactly the bases [lo,hi) of the spliced region (position and strand of every t-th base), extending the first/last segment outward; the law is also executed on residues (Locate of the resized region equals the slice of Locate of the region) for 1-2 segments at every position; modifiers print and re-parse; locators compose (selector, @M, ranges, points, keys that do not start with a letter) and are repeatable.",
          "segments non-empty except in the zero-length strand harness (a listed known finding); segment count bounded; modifier text round trip with offsets up to 99 / 9999; locator composition on a fixed list of locator strings"),
  "C09": ("§4 C09", "Minimize/InvertLinear/InvertCircular are proved on collections of up to 5 segments (any overlap/orientation/order, real sort.Sort source) to give forward, increasing, non-abutting segments with the same coverage, and an inversion that partitions [0,n) with it.",
          "total number of segments bounded; n and coordinates symbolic <= 2^40"),
- "C10": ("§4 C10", "Expand(i,-n) after Shift(i,n)/Expand(i,n) is proved to restore the denotation, order, strand and markers of every shape in the bound (single parts come back as exactly that part); slice*;concat is executed on symbolic sequences with 1-2 cuts, and Concat's offsets for three pieces.",
+ "C10": ("§4 C10", "Expand(i,-n) after Shift(i,n)/Expand(i,n) is proved to restore the denotation, order, strand and markers of every shape in the bound (single parts come back as exactly that part); slice*;concat is executed on symbolic sequences with 1-2 cuts (with and without a source, so pieces may carry no feature), and Concat's offsets for three pieces incl. a bare middle piece.",
          "shapes bounded as C02; sequences of 5-6 residues at API level"),
  "C11": ("§4 C11", "each of 16 library operations is executed on sequences whose residue bytes are symbolic and whose slices have every aliasing shape (len==cap, spare capacity, sub-slice of a larger caller-owned buffer; feature tables with spare slots); a deep snapshot of everything the caller can observe (whole backing buffer, keys, location atoms, qualifier strings) is asserted unchanged after the call and after a second call, and the first result is asserted unchanged by the second call. The engine's slice model implements append's in-place rule, so aliasing writes are visible exactly as at run time.",
          "sequence lengths 4/2, two host features; quick uses concrete coordinates; data races and reflection-based observers are outside"),
- "C12": ("§4 C12", "Repair is executed on tables of 2-3 same/different-class features with symbolic coordinates and partial flags on either strand (incl. joins): no panic, idempotent, unchanged without an abutting 3'/5'-partial pair (any abutting pair for source), merges only with such a pair, per-class coverage unchanged; and on slice;...;concat;repair round trips with 1-2 symbolic cut positions restoring class-unique features exactly.",
+ "C12": ("§4 C12", "Repair is executed on tables of 2-3 same/different-class features with symbolic coordinates and partial flags on either strand (incl. joins): no panic, idempotent, unchanged without an abutting 3'/5'-partial pair (any abutting pair for source), merges only with such a pair, per-class coverage unchanged; chains of three fragments with a join that sorts before the fragments it continues reach the fixed point in one call; and on slice;...;concat;repair round trips with 1-2 symbolic cut positions restoring class-unique features exactly.",
          "restoration is asserted for cuts that fall strictly inside a part or miss the feature, and for joins with ascending disjoint parts (see DESIGN §6 for why the remaining cases are not decidable from the table); table sizes bounded"),
  "C13": ("§4 C13", "cache.Create/Write/Close then one fault then cache.Open are executed over an in-memory file system with symbolic body bytes, symbolic root/data digests and a symbolic fault (flip of any byte by any non-zero mask, any truncation, appended bytes, other digests, another entry's content, every crash point of the write protocol): Open succeeds only if the file is bytewise the finished entry opened with its own digests, and then reads back the written bytes.",
          "stubs: in-memory FS, flate = self-delimiting buffered framing, uninterpreted 2-byte digest with collision-freeness assumed between the compared inputs and a non-zero root digest; real OS failure modes are outside; counterexamples replay on real files with real flate and SHA-1"),
- "C14": ("§4 C14", "protocol layer: the real `gts delete` (ioDelegate, TryCache, cache.File, writer) plus main()'s epilogue is run in histories of three invocations over one cache directory with symbolic inputs (same/different), different locators and failing runs; every invocation's stdout bytes and exit status are asserted equal to the same invocation under --no-cache. Key completeness by self-composition: extract, delete, insert, query, search, select, sort and join are each run twice with independently chosen option vectors; equal cache key (entry name) must imply equal output. Secondary inputs: insert/search with a literal and with a file of symbolic bytes through the real scanner, insert/infix with two files that hold the same residues as different records.",
-         "stubs: scanner queue, in-memory FS, flate framing model, uninterpreted collision-free digests, json.Marshal = injective structural encoding (the real encodePayload runs); natively (replay) real files, real SHA-1/flate/json and XDG_CACHE_HOME; delete/insert/search/infix are driven at the protocol layer and eight commands for key completeness - the other cached subcommands, and outputs beyond about 1 KB (seed C14-6 is a documented miss), are outside the bound"),
+ "C14": ("§4 C14", "protocol layer: the real `gts delete` (ioDelegate, TryCache, cache.File, writer) plus main()'s epilogue is run in histories of three invocations over one cache directory with symbolic inputs (same/different), different locators and failing runs; every invocation's stdout bytes and exit status are asserted equal to the same invocation under --no-cache. Crash histories: a run that panics mid-stream (deferred calls run, main()'s epilogue does not) followed by identical runs. Key completeness by self-composition: extract, delete, insert, query, search, select, sort, join, rotate, split, infix, pick, summary, define and the option-less clear/reverse/complement/repair are each run twice with independently chosen option vectors; equal cache key (entry name) must imply equal output. Secondary inputs: insert/search with a literal and with a file of symbolic bytes through the real scanner, insert/infix with two files that hold the same residues as different records.",
+         "stubs: scanner queue, in-memory FS, flate framing model, uninterpreted collision-free digests, json.Marshal = injective structural encoding (the real encodePayload runs); natively (replay) real files, real SHA-1/flate/json and XDG_CACHE_HOME; delete/insert/search/infix are driven at the protocol layer and eighteen commands for key completeness - annotate, the -F/-o options beyond delete -o, and outputs beyond about 1 KB (seed C14-6 is a documented miss), are outside the bound"),
  "C15": ("§4 C15", "the real command functions deleteFunc/insertFunc/infixFunc/rotateFunc/splitFunc/extractFunc (flag parsing, locator, Minimize/flip/sort, the library edits) are executed on a record with symbolic residues and 2-3 gene features whose coordinates and strands are symbolic (so sites overlap, nest, coincide, come unsorted): delete removes exactly the union, insert places one guest copy per site at its 5' position in input coordinates, rotate brings the first site to 0, split pieces concatenate to the (re-origined) input, extract emits each distinct shorter region once in order / with -v the maximal unlocated stretches; every emitted record is formatted by the real GenBank writer.",
          "stubs: scanner = queue of harness-built records, writer = capturing sink, IsTerminal=false, --no-cache; natively (witness validation and counterexample replay) the real reader, writer and command run on real files; record length 4-8; -F conversions not covered"),
  "C16": ("§4 C16", "fromOriginLength(toOriginLength(n))=n, strict monotonicity and an independently written layout formula are proved for every n in [0,4e18] in one query each; NewOrigin/Bytes layout is executed on symbolic residues for bounded lengths.",
          "layout harness lengths bounded as stated in the evidence"),
  "C17": ("§4 C17", "FastaWriter/wrap.Force/FastaParser/Scanner are executed on records with symbolic descriptions and symbolic residues (printable minus '>') at lengths around the 70-column boundaries, 1-3 records per stream, LF and CRLF: same count, descriptions and residues; GenBank->FASTA conversion keeps residues and builds the documented description (also for slices).",
          "residue lengths are the listed concrete values"),
- "C18": ("§4 C18", "Complement/Transcribe are executed on a symbolic byte (all 256 values per query) against a 16-letter base-set table written in the harness; gts.Match is executed with 1-2 fully symbolic query bytes against 1-3 symbolic sequence letters: never panics, every reported segment is a match under base-set inclusion (literal bytes match only themselves), segments ascend without overlap and every match overlaps a reported one; gts.Search on symbolic sequences/queries returns exactly the ascending list of all overlapping case-insensitive occurrences.",
+ "C18": ("§4 C18", "Complement/Transcribe are executed on a symbolic byte (all 256 values per query) against a 16-letter base-set table written in the harness; gts.Match is executed with 1-2 fully symbolic query bytes against 1-3 symbolic sequence letters: never panics, every reported segment is a match under base-set inclusion (literal bytes match only themselves), segments ascend without overlap and every match overlaps a reported one; Complement and Transcribe keep no state between calls; gts.Search on symbolic sequences/queries (query shorter than, as long as, and longer than the sequence) returns exactly the ascending list of all overlapping case-insensitive occurrences.",
          "regexp is replaced by a fixed-width class model of exactly the patterns Match builds, index/suffixarray by its contract (all occurrence offsets, unspecified order); the K class [gtuy] pinned by TestMatch is a listed known finding; counterexamples replay against the real regexp/suffixarray"),
  "C19": ("§4 C19", "LocationLess is proved irreflexive/asymmetric/transitive on triples of bounded shapes for all coordinates; FeatureSlice.Insert (real sort.Search) is proved to keep exactly the inserted features, sources first, in non-decreasing order; Within/Overlap/And/Or/Not/Key/strand filters and Filter against pointwise references; Selector against a reference reading of the grammar (named/unnamed clauses, repeated names, regexps with escapes).",
          "table sizes and shapes bounded; selector regexps are an uninterpreted predicate where used"),
